@@ -184,6 +184,29 @@ def loud_cases():
         ("rfft of odd length", lambda: autograd.grad(lambda v: np.sum(np.real(np.fft.rfft(v))))(x)),
         ("svd with full_matrices", lambda: autograd.grad(lambda v: np.sum(np.linalg.svd(np.outer(v, v[:2]) + 1.0, full_matrices=True)[0]))(x)),
     ]
+    # every scalar-output operator x every kind of output it cannot serve (complex in three layouts, containers, non-numbers)
+    bad_outputs = [
+        ("a complex scalar", lambda v: np.sum(v) * (1 + 0.2j)),
+        ("a one-element complex array", lambda v: np.sum(v, keepdims=True) * (1 + 0.2j)),
+        ("a 0-d complex array", lambda v: np.array(np.sum(v) * (1 + 0.2j))),
+        ("a tuple of scalars", lambda v: (np.sum(v), np.sum(v * v))),
+        ("None", lambda v: None),
+        ("a string", lambda v: "abc"),
+        ("a bool", lambda v: np.sum(v) > 0),
+    ]
+    scalar_ops = [
+        ("grad", lambda f: autograd.grad(f)(x)),
+        ("value_and_grad", lambda f: autograd.value_and_grad(f)(x)),
+        ("grad_named", lambda f: autograd.grad_named(lambda v: f(v), "v")(x)),
+        ("grad with argnum given as a tuple", lambda f: autograd.grad(lambda v, w: f(v), (0, 1))(x, x)),
+        ("value_and_grad with argnum given as a list", lambda f: autograd.value_and_grad(lambda v, w: f(v), [0, 1])(x, x)),
+        ("make_hvp", lambda f: autograd.make_hvp(f)(x)[0](x)),
+        ("hessian_vector_product", lambda f: autograd.hessian_vector_product(f)(x, x)),
+        ("hessian_tensor_product", lambda f: autograd.hessian_tensor_product(f)(x, x)),
+    ]
+    for oname, of in bad_outputs:
+        for pname, op in scalar_ops:
+            cases.append(("%s of a function returning %s" % (pname, oname), (lambda op=op, of=of: op(of))))
     res = []
     for name, fn in cases:
         try:
